@@ -364,7 +364,7 @@ pub fn check(tier: &str) -> i32 {
     let t0 = std::time::Instant::now();
     let kf = crate::known::load();
     let scratch = Scratch::new("c08");
-    let exe = std::env::current_exe().unwrap();
+    let exe = crate::explore::self_exe();
     let out = std::process::Command::new(exe).arg("c08child").arg(scratch.dir.join("db")).arg(tier).env_remove("SNELDB_CONFIG").env("RAYON_NUM_THREADS", "1").output();
     let out = match out {
         Ok(o) if o.status.success() => o,
